@@ -64,6 +64,7 @@ type Exec struct {
 	onRead        func(st *State, l Loc)
 	nq            int
 	wroteAll      string
+	epochAlloc    map[int]T
 	obsSeen       map[string]bool
 	immutKept     bool
 	nimm          int
@@ -544,6 +545,7 @@ func (ex *Exec) run() {
 
 	st := &State{guard: TTrue, locals: map[*ssa.Alloc]T{}, heaps: map[string]T{}, ghost: map[string]T{}}
 	alloc0 := ex.ghostGet(st, "alloc")
+	ex.epochAlloc = map[int]T{0: alloc0}
 	vc.assume(TTrue, Ge(alloc0, IntLit(0)))
 	for _, p := range fn.Params {
 		t := vc.constant("p."+sanitize(p.Name()), vc.sortOf(p.Type()))
